@@ -147,6 +147,9 @@ func check14(c *Case, o *Obs, rec Rec) (vs []viol, inconclusive string) {
 	if pc == "http/json" || pc == "http/proto" {
 		pc = "http"
 	}
+	if c.Target != "" {
+		pc += "@" + c.Target
+	}
 	add := func(obs, cls, what string) {
 		vs = append(vs, viol{pc + ":" + obs + ":" + cls, what})
 	}
@@ -313,6 +316,11 @@ func check14(c *Case, o *Obs, rec Rec) (vs []viol, inconclusive string) {
 				vc = kc
 			}
 			vals, ok := view[kv.K]
+			if !ok && c.Target == "proxy" {
+				// response metadata of a proxied back-end: the statement does not
+				// oblige the proxy to relay it; only what is relayed is compared
+				continue
+			}
 			if !ok {
 				add(obsName+"-missing", kc, fmt.Sprintf("%s metadata %+q=%s set by the handler did not reach the client; client saw keys %+q", obsName, kv.K, showVals(kv.V), sortedKeys(view)))
 				continue
@@ -369,14 +377,26 @@ func reservedRequestName(l string) bool {
 
 // genReqName makes a request header name: tokens over the whole HTTP token
 // alphabet in mixed case (wide) or over gRPC's key alphabet (for grpc-go).
-func genReqName(rng *rand.Rand, wide bool, bin bool, used map[string]bool) string {
+// name alphabets of request headers
+const (
+	nameGRPC      = 0 // gRPC's key alphabet, lower case (what grpc-go accepts)
+	nameWide      = 1 // the whole HTTP token alphabet, mixed case
+	nameGRPCMixed = 2 // gRPC's key alphabet in mixed case (lower-cased by the mux before a proxy hop)
+)
+
+const grpcKeyCharsMixed = grpcKeyChars + "ABCDEFGHIJKLMNOPQRSTUVWXYZ"
+
+func genReqName(rng *rand.Rand, mode int, bin bool, used map[string]bool) string {
+	wide := mode != nameGRPC
 	for {
 		n := 1 + rng.Intn(10)
 		var sb strings.Builder
 		for i := 0; i < n; i++ {
 			switch {
-			case !wide:
+			case mode == nameGRPC:
 				sb.WriteByte(grpcKeyChars[rng.Intn(len(grpcKeyChars))])
+			case mode == nameGRPCMixed:
+				sb.WriteByte(grpcKeyCharsMixed[rng.Intn(len(grpcKeyCharsMixed))])
 			case rng.Intn(5) == 0:
 				sb.WriteByte(tokenPunct[rng.Intn(len(tokenPunct))])
 			default:
@@ -402,7 +422,7 @@ func genReqName(rng *rand.Rand, wide bool, bin bool, used map[string]bool) strin
 		} else if strings.HasSuffix(l, "-bin") {
 			continue
 		}
-		if reservedRequestName(l) || used[l] || l[0] == '.' && !wide {
+		if reservedRequestName(l) || used[l] || l[0] == '.' && mode != nameWide {
 			continue
 		}
 		used[l] = true
@@ -494,9 +514,23 @@ func genOutSet(rng *rand.Rand, n int, used map[string]bool) []KV {
 }
 
 type c14Runner struct {
-	r   *mon.Run
-	env *Env
-	rng *rand.Rand
+	r      *mon.Run
+	env    *Env
+	rng    *rand.Rand
+	target string // "" | "proxy": target of the cases being generated
+}
+
+// nameMode is the header-name alphabet for a protocol on the current target:
+// a proxied call crosses a grpc-go client, which refuses keys outside gRPC's
+// alphabet.
+func (g *c14Runner) nameMode(wide bool) int {
+	switch {
+	case !wide:
+		return nameGRPC
+	case g.target == "proxy":
+		return nameGRPCMixed
+	}
+	return nameWide
 }
 
 func (g *c14Runner) exec(c *Case) {
@@ -514,6 +548,9 @@ func (g *c14Runner) exec(c *Case) {
 	if strings.HasPrefix(c.Proto, "grpcweb") && o.WebErr != "" && c.Kind == "C14out" {
 		r.Count("grpcweb_cases_with_unreadable_trailer_frame", 1)
 	}
+	if c.Target == "proxy" {
+		r.Count("rpcs_to_proxied_backend", 1)
+	}
 	if rec.Ran && inc == "" {
 		if c.Kind == "C14in" {
 			classes := map[string]bool{}
@@ -523,12 +560,12 @@ func (g *c14Runner) exec(c *Case) {
 				r.Count("request_header_values_checked", len(h.Vals))
 			}
 			for cl := range classes {
-				r.Distinct(fmt.Sprintf("in/%s/%s/%s/%s", protoFamily(c.Proto), c.Codec, c.Method, cl))
+				r.Distinct(fmt.Sprintf("in/%s%s/%s/%s/%s", c.Target+":", protoFamily(c.Proto), c.Codec, c.Method, cl))
 			}
 		} else {
 			r.Count("response_header_keys_checked", len(c.Script.Hdr))
 			r.Count("response_trailer_keys_checked", len(c.Script.Trl)+len(c.Script.TrlLate))
-			r.Distinct(fmt.Sprintf("out/%s/%s/%s/%s/hdr=%d,send=%v/trl=%d+%d/late-hdr=%d/%s", protoFamily(c.Proto), c.Codec, c.Method, outcomeClass(c, rec),
+			r.Distinct(fmt.Sprintf("out/"+c.Target+":%s/%s/%s/%s/hdr=%d,send=%v/trl=%d+%d/late-hdr=%d/%s", protoFamily(c.Proto), c.Codec, c.Method, outcomeClass(c, rec),
 				min(len(c.Script.Hdr), 2), c.Script.SendHdr, min(len(c.Script.Trl), 2), min(len(c.Script.TrlLate), 2), min(len(c.Script.HdrLate), 1), c.Class))
 		}
 	}
@@ -564,7 +601,7 @@ func (g *c14Runner) inCase(proto, method string, hdrs []HdrSpec, class string) {
 	if strings.HasPrefix(proto, "http") || g.rng.Intn(4) == 0 {
 		codec = []string{"json", "proto"}[g.rng.Intn(2)]
 	}
-	c := &Case{Kind: "C14in", Proto: proto, Codec: codec, Method: method, ReqHdr: hdrs, Class: class,
+	c := &Case{Kind: "C14in", Proto: proto, Codec: codec, Method: method, ReqHdr: hdrs, Class: class, Target: g.target,
 		Script: Script{Replies: 1}}
 	g.exec(c)
 }
@@ -582,7 +619,7 @@ func (g *c14Runner) binSweep(proto string, wide bool, vals [][]byte, class strin
 			var hdrs []HdrSpec
 			for k := 0; k < 6 && i < len(vals); k++ {
 				nv := 1 + g.rng.Intn(3)
-				h := HdrSpec{Name: genReqName(g.rng, wide, true, used), Padded: padded}
+				h := HdrSpec{Name: genReqName(g.rng, g.nameMode(wide), true, used), Padded: padded}
 				for j := 0; j < nv && i < len(vals); j++ {
 					h.Vals = append(h.Vals, vals[i])
 					i++
@@ -596,7 +633,7 @@ func (g *c14Runner) binSweep(proto string, wide bool, vals [][]byte, class strin
 
 // RunC14 is the metadata fidelity check.
 func RunC14(r *mon.Run) {
-	r.Rule = "(in) requests carrying 1-6 custom headers (names over the HTTP token alphabet in mixed case, 1-3 values, '-bin' names with every byte string of length 0-1 (thorough: 0-2) plus boundary/random strings of length 3..500, each sent as padded and as unpadded base64) on HTTP transcoding, raw gRPC (in-process, h2c), grpc-go, gRPC-web binary/text (in-process, HTTP/1 socket); the handler's metadata.FromIncomingContext is compared with what was sent. (out) a scripted handler sets 0-4 header keys (SetHeader or SendHeader) and 0-4 trailer keys before / after its first reply, optionally one protocol-reserved key with a forged value, optionally keeps mutating / re-using the metadata.MD object it passed in (values overwritten in place, slices replaced, keys added, keys deleted, header MD refilled and passed to SetTrailer), then succeeds or fails before / after the first reply; the client (HTTP response headers, grpc-go Header/Trailer call options, gRPC-web headers + trailer frame) must see every non-reserved key with the values it had at the time of the call, byte-equal, no key added later, never the forged value, and the handler's real status. Non-trivial = the scripted handler ran; distinct = (direction, protocol, codec, method, name/value class | outcome, header/trailer set shape, reserved key)"
+	r.Rule = "(in) requests carrying 1-6 custom headers (names over the HTTP token alphabet in mixed case, 1-3 values, '-bin' names with every byte string of length 0-1 (thorough: 0-2) plus boundary/random strings of length 3..500, each sent as padded and as unpadded base64) on HTTP transcoding, raw gRPC (in-process, h2c), grpc-go, gRPC-web binary/text (in-process, HTTP/1 socket), with the handler registered on the mux and with the same handler on a grpc.Server back-end proxied through RegisterConn; the handler's metadata.FromIncomingContext is compared with what was sent. (out) a scripted handler sets 0-4 header keys (SetHeader or SendHeader) and 0-4 trailer keys before / after its first reply, optionally one protocol-reserved key with a forged value, optionally keeps mutating / re-using the metadata.MD object it passed in (values overwritten in place, slices replaced, keys added, keys deleted, header MD refilled and passed to SetTrailer), then succeeds or fails before / after the first reply; the client (HTTP response headers, grpc-go Header/Trailer call options, gRPC-web headers + trailer frame) must see every non-reserved key with the values it had at the time of the call, byte-equal, no key added later, never the forged value, and the handler's real status. Non-trivial = the scripted handler ran; distinct = (direction, protocol, codec, method, name/value class | outcome, header/trailer set shape, reserved key)"
 	r.Floor = 120
 	env, err := newEnv()
 	if err != nil {
@@ -633,42 +670,48 @@ func RunC14(r *mon.Run) {
 		}
 	}
 	nRandIn := r.Pick(150, 1500)
-	for _, p := range inProtos {
-		g.binSweep(p.proto, p.wide, short, "bin-len0-1")
-		g.binSweep(p.proto, p.wide, boundary, "bin-len2-4-boundary")
-		if p.heavy && len(two) > 0 {
-			g.binSweep(p.proto, p.wide, two, "bin-len2-all")
-		}
-		n := nRandIn
-		if !p.heavy {
-			n = nRandIn / 3
-		}
-		for i := 0; i < n; i++ {
-			used := map[string]bool{}
-			var hdrs []HdrSpec
-			for k, nk := 0, 1+rng.Intn(6); k < nk; k++ {
-				bin := rng.Intn(3) == 0
-				h := HdrSpec{Name: genReqName(rng, p.wide, bin, used), Padded: bin && p.wide && rng.Intn(2) == 0}
-				nv := 1
-				if rng.Intn(2) == 0 {
-					nv = 2 + rng.Intn(2)
-				}
-				for j := 0; j < nv; j++ {
-					if bin {
-						h.Vals = append(h.Vals, genBinValue(rng))
-					} else {
-						h.Vals = append(h.Vals, genASCIIValue(rng))
+	for _, g.target = range []string{"", "proxy"} {
+		for _, p := range inProtos {
+			g.binSweep(p.proto, p.wide, short, "bin-len0-1")
+			g.binSweep(p.proto, p.wide, boundary, "bin-len2-4-boundary")
+			if p.heavy && len(two) > 0 {
+				g.binSweep(p.proto, p.wide, two, "bin-len2-all")
+			}
+			n := nRandIn
+			if !p.heavy {
+				n = nRandIn / 3
+			}
+			if g.target == "proxy" && !r.Thorough() {
+				n = n/2 + 1
+			}
+			for i := 0; i < n; i++ {
+				used := map[string]bool{}
+				var hdrs []HdrSpec
+				for k, nk := 0, 1+rng.Intn(6); k < nk; k++ {
+					bin := rng.Intn(3) == 0
+					h := HdrSpec{Name: genReqName(rng, g.nameMode(p.wide), bin, used), Padded: bin && p.wide && rng.Intn(2) == 0}
+					nv := 1
+					if rng.Intn(2) == 0 {
+						nv = 2 + rng.Intn(2)
 					}
+					for j := 0; j < nv; j++ {
+						if bin {
+							h.Vals = append(h.Vals, genBinValue(rng))
+						} else {
+							h.Vals = append(h.Vals, genASCIIValue(rng))
+						}
+					}
+					hdrs = append(hdrs, h)
 				}
-				hdrs = append(hdrs, h)
+				method := "Echo"
+				if rng.Intn(4) == 0 && p.proto != "grpc-h2c" {
+					method = "SS"
+				}
+				g.inCase(p.proto, method, hdrs, "random")
 			}
-			method := "Echo"
-			if rng.Intn(4) == 0 && p.proto != "grpc-h2c" {
-				method = "SS"
-			}
-			g.inCase(p.proto, method, hdrs, "random")
 		}
 	}
+	g.target = ""
 
 	// ---------------- outgoing
 	type outVar struct {
@@ -686,121 +729,137 @@ func RunC14(r *mon.Run) {
 	}{{0, 1}, {0, 2}, {5, 0}, {13, 0}, {3, 1}, {5, 2}}
 	nRandOut := r.Pick(120, 900)
 	mutations := []string{"overwrite", "replace", "add", "delete", "reuse"}
-	for _, v := range ovs {
-		mk := func(oc struct {
-			code    uint32
-			replies int
-		}) *Case {
-			codec := "proto"
-			if strings.HasPrefix(v.proto, "http") || rng.Intn(4) == 0 {
-				codec = []string{"json", "proto"}[rng.Intn(2)]
+	for _, target := range []string{"", "proxy"} {
+		reduced := target == "proxy" && !r.Thorough()
+		for _, v := range ovs {
+			if reduced && strings.HasSuffix(v.proto, "-sock") {
+				continue
 			}
-			c := &Case{Kind: "C14out", Proto: v.proto, Codec: codec, Method: v.method, Class: "custom",
-				Script: Script{Code: oc.code, Msg: "metadata case", Replies: oc.replies}}
-			if v.method == "Echo" {
-				c.Script.Replies = 0
-				if oc.code == 0 {
-					c.Script.Replies = 1
+			nRandOut := nRandOut
+			if reduced {
+				nRandOut /= 3
+			}
+			mk := func(oc struct {
+				code    uint32
+				replies int
+			}) *Case {
+				codec := "proto"
+				if strings.HasPrefix(v.proto, "http") || rng.Intn(4) == 0 {
+					codec = []string{"json", "proto"}[rng.Intn(2)]
+				}
+				c := &Case{Kind: "C14out", Proto: v.proto, Codec: codec, Method: v.method, Class: "custom", Target: target,
+					Script: Script{Code: oc.code, Msg: "metadata case", Replies: oc.replies}}
+				if v.method == "Echo" {
+					c.Script.Replies = 0
+					if oc.code == 0 {
+						c.Script.Replies = 1
+					}
+				}
+				return c
+			}
+			// random custom sets
+			for i := 0; i < nRandOut; i++ {
+				oc := outcomes[rng.Intn(len(outcomes))]
+				if v.method == "Echo" && oc.replies > 0 && oc.code != 0 {
+					oc.replies = 0
+				}
+				c := mk(oc)
+				used := map[string]bool{}
+				c.Script.Hdr = genOutSet(rng, rng.Intn(5), used)
+				c.Script.SendHdr = rng.Intn(3) == 0
+				c.Script.Trl = genOutSet(rng, rng.Intn(5), used)
+				if v.method != "Echo" {
+					if rng.Intn(2) == 0 {
+						c.Script.TrlLate = genOutSet(rng, 1+rng.Intn(3), used)
+					}
+					if rng.Intn(4) == 0 {
+						c.Script.HdrLate = genOutSet(rng, 1, used)
+					}
+				}
+				if rng.Intn(3) == 0 {
+					c.Script.Mutate = mutations[rng.Intn(len(mutations))]
+					c.Class = "md-" + c.Script.Mutate
+				}
+				g.exec(c)
+			}
+			// the handler keeps using the MD object it passed in
+			for _, mut := range mutations {
+				for _, oc := range outcomes {
+					if v.method == "Echo" && oc.replies > 0 && oc.code != 0 {
+						continue
+					}
+					for _, send := range []bool{false, true} {
+						c := mk(oc)
+						c.Class = "md-" + mut
+						used := map[string]bool{}
+						c.Script.Hdr = genOutSet(rng, 1+rng.Intn(3), used)
+						c.Script.Trl = genOutSet(rng, 1+rng.Intn(3), used)
+						c.Script.SendHdr = send
+						c.Script.Mutate = mut
+						if v.method != "Echo" && oc.replies > 0 && rng.Intn(2) == 0 {
+							c.Script.TrlLate = genOutSet(rng, 1+rng.Intn(2), used)
+						}
+						g.exec(c)
+					}
 				}
 			}
-			return c
-		}
-		// random custom sets
-		for i := 0; i < nRandOut; i++ {
-			oc := outcomes[rng.Intn(len(outcomes))]
-			if v.method == "Echo" && oc.replies > 0 && oc.code != 0 {
-				oc.replies = 0
-			}
-			c := mk(oc)
-			used := map[string]bool{}
-			c.Script.Hdr = genOutSet(rng, rng.Intn(5), used)
-			c.Script.SendHdr = rng.Intn(3) == 0
-			c.Script.Trl = genOutSet(rng, rng.Intn(5), used)
-			if v.method != "Echo" {
-				if rng.Intn(2) == 0 {
-					c.Script.TrlLate = genOutSet(rng, 1+rng.Intn(3), used)
-				}
-				if rng.Intn(4) == 0 {
-					c.Script.HdrLate = genOutSet(rng, 1, used)
-				}
-			}
-			if rng.Intn(3) == 0 {
-				c.Script.Mutate = mutations[rng.Intn(len(mutations))]
-				c.Class = "md-" + c.Script.Mutate
-			}
-			g.exec(c)
-		}
-		// the handler keeps using the MD object it passed in
-		for _, mut := range mutations {
+			// a trailer key that is also a header key
 			for _, oc := range outcomes {
 				if v.method == "Echo" && oc.replies > 0 && oc.code != 0 {
 					continue
 				}
-				for _, send := range []bool{false, true} {
-					c := mk(oc)
-					c.Class = "md-" + mut
-					used := map[string]bool{}
-					c.Script.Hdr = genOutSet(rng, 1+rng.Intn(3), used)
-					c.Script.Trl = genOutSet(rng, 1+rng.Intn(3), used)
-					c.Script.SendHdr = send
-					c.Script.Mutate = mut
-					if v.method != "Echo" && oc.replies > 0 && rng.Intn(2) == 0 {
-						c.Script.TrlLate = genOutSet(rng, 1+rng.Intn(2), used)
-					}
-					g.exec(c)
+				c := mk(oc)
+				c.Class = "trailer-key-equals-header-key"
+				c.Script.Hdr = []KV{{K: "x-both", V: [][]byte{[]byte("header-value")}}, {K: "x-h-only", V: [][]byte{[]byte("h")}}}
+				c.Script.Trl = []KV{{K: "x-both", V: [][]byte{[]byte("trailer-value")}}, {K: "x-t-only", V: [][]byte{[]byte("t")}}}
+				g.exec(c)
+			}
+			// one reserved key with a forged value, in the header or trailer set
+			// (local target only: what a grpc-go back-end does with reserved
+			// keys of its own handler is decided before the proxy sees anything)
+			for _, rk := range reservedOrder {
+				if target == "proxy" {
+					break
 				}
-			}
-		}
-		// a trailer key that is also a header key
-		for _, oc := range outcomes {
-			if v.method == "Echo" && oc.replies > 0 && oc.code != 0 {
-				continue
-			}
-			c := mk(oc)
-			c.Class = "trailer-key-equals-header-key"
-			c.Script.Hdr = []KV{{K: "x-both", V: [][]byte{[]byte("header-value")}}, {K: "x-h-only", V: [][]byte{[]byte("h")}}}
-			c.Script.Trl = []KV{{K: "x-both", V: [][]byte{[]byte("trailer-value")}}, {K: "x-t-only", V: [][]byte{[]byte("t")}}}
-			g.exec(c)
-		}
-		// one reserved key with a forged value, in the header or trailer set
-		for _, rk := range reservedOrder {
-			for _, where := range []string{"header", "trailer", "trailer-late"} {
-				for _, oc := range outcomes {
-					if v.method == "Echo" && (oc.replies > 0 && oc.code != 0 || where == "trailer-late") {
-						continue
-					}
-					if where == "trailer-late" && oc.replies == 0 {
-						continue
-					}
-					if strings.HasPrefix(v.proto, "http") && (where != "header" || rk == "grpc-status-details-bin") {
-						continue // trailers are not obliged on HTTP transcoding; no HTTP client interprets the details key
-					}
-					for _, send := range []bool{false, true} {
-						if send && where != "header" {
+				for _, where := range []string{"header", "trailer", "trailer-late"} {
+					for _, oc := range outcomes {
+						if v.method == "Echo" && (oc.replies > 0 && oc.code != 0 || where == "trailer-late") {
 							continue
 						}
-						c := mk(oc)
-						c.Class = "reserved-" + rk + "@" + where
-						used := map[string]bool{}
-						c.Script.Hdr = genOutSet(rng, 1, used)
-						c.Script.Trl = genOutSet(rng, 1, used)
-						c.Script.SendHdr = send
-						kv := KV{K: rk, V: [][]byte{reservedForged[rk]}}
-						switch where {
-						case "header":
-							c.Script.Hdr = append(c.Script.Hdr, kv)
-						case "trailer":
-							c.Script.Trl = append(c.Script.Trl, kv)
-						default:
-							c.Script.TrlLate = append(c.Script.TrlLate, kv)
+						if where == "trailer-late" && oc.replies == 0 {
+							continue
 						}
-						g.exec(c)
+						if strings.HasPrefix(v.proto, "http") && (where != "header" || rk == "grpc-status-details-bin") {
+							continue // trailers are not obliged on HTTP transcoding; no HTTP client interprets the details key
+						}
+						for _, send := range []bool{false, true} {
+							if send && where != "header" {
+								continue
+							}
+							c := mk(oc)
+							c.Class = "reserved-" + rk + "@" + where
+							used := map[string]bool{}
+							c.Script.Hdr = genOutSet(rng, 1, used)
+							c.Script.Trl = genOutSet(rng, 1, used)
+							c.Script.SendHdr = send
+							kv := KV{K: rk, V: [][]byte{reservedForged[rk]}}
+							switch where {
+							case "header":
+								c.Script.Hdr = append(c.Script.Hdr, kv)
+							case "trailer":
+								c.Script.Trl = append(c.Script.Trl, kv)
+							default:
+								c.Script.TrlLate = append(c.Script.TrlLate, kv)
+							}
+							g.exec(c)
+						}
 					}
 				}
 			}
 		}
 	}
 
+	r.Assume("proxied target (handler on a grpc.Server reached through RegisterConn): request header names are restricted to gRPC's key alphabet (the grpc-go hop refuses others); response metadata of the back-end carries no delivery obligation through the proxy - only relayed keys are compared (values at call time, byte-equal), plus status, replies, reserved keys and scratch keys")
 	r.Assume("custom names avoid the names HTTP itself or gRPC reserve (host, te, content-*, accept*, grpc-*, ...) and are unique per request after lower-casing; ASCII values are printable without leading/trailing white space; a trailer set after the first reply is only required when the handler got that far")
 	r.Assume("header metadata set after the first reply carries no delivery obligation (grpc-go rejects it); trailers are not required on plain HTTP transcoding; a gRPC-web client reads trailers from the trailer frame, or from the HTTP headers of a body-less response")
 	r.Assume("reserved keys checked: content-type, grpc-status, grpc-message, grpc-encoding, grpc-status-details-bin (the keys a gRPC client interprets in a response)")
